@@ -393,6 +393,7 @@ deriving DecidableEq, Repr
 		sb.WriteString(c18Lean("coreRecvPacket", fn))
 		c.facts["C18.coreRecvPacket"] = fn
 	}
+	sb.WriteString(c.c18Programs())
 	sb.WriteString("end FxVerif.Gen.C18\n")
 	c.write("C18.lean", sb.String())
 }
